@@ -5,7 +5,7 @@ HARNESS = "harness/c01_roundtrip.py"
 MODE = "corpus"
 EXPLANATION = ("For every round-trip class of the spec corpus the repository's own generator output is executed symbolically together with the real EoWriter/EoReader: "
                "structure (string lengths, array counts, optional presence, case selection) is value-forked, all leaf values are solver variables over their whole range.")
-BOUNDS = {"quick": "corpus: every wire-unambiguous class of corpus/core (programs quantifier = this fixed corpus); strings of length 0 or 1 (fixed-length ones at their length), arrays of 0 or 1 elements (fixed at their length); integers/ordinals/code points over their full range",
+BOUNDS = {"quick": "corpus: every wire-unambiguous class of corpus/core (programs quantifier = this fixed corpus); strings of length 0 or 1 (fixed-length ones at their length), arrays of 0, 1 or 2 elements (fixed at their length); integers/ordinals/code points over their full range",
           "thorough": "same corpus; string lengths in {0,1,2,3}, array counts in {0,1,2,3}"}
 OUTSIDE = "specifications not in the corpus; longer strings and arrays; wire-ambiguous specs (C01's own quantifier excludes them)"
 ASSUMPTIONS = ["validity predicate of C01: cp1252-encodable strings, no y-diaeresis where sanitised or padded, no '~' in encoded strings, present optionals serialize to at least one byte, "
@@ -22,7 +22,7 @@ def programs(tier):
 
 def jobs(tier):
     types, cls = corpus.classes("roundtrip")
-    cfgs = [{"lens": [0, 1], "counts": [0, 1]}] if tier == "quick" else [{"lens": [0, 1, 2, 3], "counts": [0, 1, 2, 3]}]
+    cfgs = [{"lens": [0, 1], "counts": [0, 1, 2]}] if tier == "quick" else [{"lens": [0, 1, 2, 3], "counts": [0, 1, 2, 3]}]
     js = []
     for c in cls:
         for i, cfg in enumerate(cfgs):
